@@ -782,3 +782,19 @@ func (o *Origins) containsFacts(v ssa.Value, truth bool) []*Fact {
 	}
 	return out
 }
+
+// reachableOnSuccessSide: the return can be reached from the call without taking an edge on which the call's error
+// is known to be non-nil.
+func (o *Origins) reachableOnSuccessSide(call ssa.CallInstruction, r *ssa.Return) bool {
+	cut := NewCut()
+	for _, e := range o.AllEdges() {
+		f := o.EdgeFact(e)
+		if f != nil && f.Kind == "errnil" && !f.Pos && exIsCallResult(f.A, call) {
+			cut.Edges[e] = true
+		}
+	}
+	start := PointOf(call)
+	start.Idx++
+	reach, _ := Reach(start, PointOf(r), cut)
+	return reach
+}
